@@ -6,7 +6,7 @@
 root=$(cd "$(dirname "$0")/.." && pwd)   # works from a worktree of /verif too
 cd "$root"
 export VERIF_WORK=${VERIF_WORK:-$root/.work5}
-declare -A MAP=( [revF14]="C15" [revF15]="C18" [revF16]="C16" [revF17]="C09" [revF18]="C11" [revF01]="C02 C08" [revF02]="C02 C08" [revF03]="C08" [revF04]="C12" [revF05]="C09" [revF06]="C10" [revF07]="C08" [revF08]="C09" [revF09]="C03" [revF10]="C14" [revF11]="C11" [revF12]="C10" [revF13]="C17" [c07e]="C07 C02" )
+declare -A MAP=( [revF14]="C15" [revF15]="C18" [revF16]="C16" [revF17]="C09" [revF18]="C11" [revF19]="C08 C11" [revF01]="C02 C08" [revF02]="C02 C08" [revF03]="C08" [revF04]="C12" [revF05]="C09" [revF06]="C10" [revF07]="C08" [revF08]="C09" [revF09]="C03" [revF10]="C14" [revF11]="C11" [revF12]="C10" [revF13]="C17" [c07e]="C07 C02" )
 for f in mutants/${1:-*}.diff; do
   n=$(basename "$f" .diff)
   ids=${MAP[$n]:-}
